@@ -3,9 +3,12 @@ package main
 // C15 — macro templates expand by exact substitution.
 
 import (
+	"fmt"
 	"go/ast"
 	"go/token"
 	"go/types"
+	"sort"
+	"strconv"
 	"strings"
 
 	"golang.org/x/tools/go/ssa"
@@ -13,6 +16,9 @@ import (
 
 func checkC15(c *Ctx) {
 	c.explainf("C15 decides: in every emission sequence of the syntax-quote generators (derived by abstract interpretation of the generator's code) each marker is closed by exactly one squash / vectorize / hashize at the same nesting, a splice explodes only under an open marker, and unquoted expressions are not compiled in tail position; errors of nested generation are propagated (see C05); at both macro expansion sites the macro is applied on the interpreter returned by Duplicate(), and Duplicate allocates fresh data, scope, address and loop stacks while sharing macros, symbol tables and the global scope; the reader sugar ^ ~ ~@ maps to syntaxQuote / unquote / unquote-splicing, the names the generator tests for; every lexer state that has read one rune beyond its own token re-dispatches that rune. It does not decide that an expansion equals an independent substitution.")
+	c.checkOperandNotComment("C15-OPERAND")
+	c.checkMacroNames("C15-FORMS")
+	c.checkPrefixSignContext("C15-SIGN")
 	// ---- ES-M / ES-T / ES-D on the syntax-quote emitters
 	v := c.esVerify()
 	n := 0
@@ -313,4 +319,209 @@ func excludesType(b *ssa.BasicBlock, v ssa.Value, tname string, depth int) bool 
 		}
 	}
 	return true
+}
+
+// checkOperandNotComment: the reader turns ~x into (unquote x). A comment is an
+// expression for the parser (it is filtered out later, recursively), so if the
+// routine that reads the operand of ~ ~@ ^ % hands a comment back, the reader
+// builds (unquote <comment>), which the filter turns into (unquote): the
+// template keeps a literal (unquote) and the expression is not substituted.
+// The rule: every routine whose result the expression parser wraps in a list
+// (the operand readers) tests what ParseExpression gave it for *SexpComment.
+func (c *Ctx) checkOperandNotComment(rule string) {
+	pe := c.mustFn(rule, "Parser.ParseExpression")
+	mk := c.mustFn(rule, "MakeList")
+	cmt := c.named("SexpComment")
+	if pe == nil || mk == nil || cmt == nil {
+		return
+	}
+	// callees of ParseExpression whose first result is stored into a slice handed to MakeList
+	readers := map[*ssa.Function]token.Pos{}
+	eachInstr(pe, func(b *ssa.BasicBlock, i int, in ssa.Instruction) {
+		call, ok := in.(*ssa.Call)
+		if !ok || call.Call.StaticCallee() == nil || call.Referrers() == nil {
+			return
+		}
+		if _, isTuple := call.Type().(*types.Tuple); !isTuple {
+			return
+		}
+		for _, r := range *call.Referrers() {
+			ex, ok := r.(*ssa.Extract)
+			if !ok || ex.Index != 0 || ex.Referrers() == nil {
+				continue
+			}
+			for _, r2 := range *ex.Referrers() {
+				st, ok := r2.(*ssa.Store)
+				if !ok || st.Val != ssa.Value(ex) {
+					continue
+				}
+				if ia, ok := st.Addr.(*ssa.IndexAddr); ok {
+					// the array literal behind []Sexp{sym, expr}
+					if sliceReachesCall(ia.X, mk) {
+						readers[call.Call.StaticCallee()] = call.Pos()
+					}
+				}
+			}
+		}
+	})
+	if len(readers) == 0 {
+		c.undecided(rule, "Parser.ParseExpression", "operand readers", pe.Pos(), "no call whose result is wrapped by MakeList found in the expression parser")
+		return
+	}
+	for g, pos := range readers {
+		tests := false
+		for _, site := range callsOf(g, pe) {
+			v, ok := site.(ssa.Value)
+			if !ok || v.Referrers() == nil {
+				continue
+			}
+			for _, r := range *v.Referrers() {
+				ex, ok := r.(*ssa.Extract)
+				if !ok || ex.Index != 0 || ex.Referrers() == nil {
+					continue
+				}
+				for _, r2 := range *ex.Referrers() {
+					if ta, ok := r2.(*ssa.TypeAssert); ok {
+						if nm, ok := derefNamed(ta.AssertedType); ok && nm == cmt {
+							tests = true
+						}
+					}
+				}
+			}
+		}
+		if g == pe {
+			tests = false
+		}
+		c.check(tests, rule, fnName(g), "operand of a reader prefix is not a comment", pos,
+			"the operand reader tests what the expression parser returned for a comment before handing it to the prefix operator",
+			"the expression wrapped by ~ ~@ ^ % is whatever ParseExpression returns next, a comment included: ^(a ~/* c */b) reads as (a (unquote) b), the template keeps a literal (unquote) and b is not substituted")
+	}
+}
+
+// sliceReachesCall: the array behind v is sliced and passed to g.
+func sliceReachesCall(v ssa.Value, g *ssa.Function) bool {
+	if v.Referrers() == nil {
+		return false
+	}
+	for _, r := range *v.Referrers() {
+		if sl, ok := r.(*ssa.Slice); ok && sl.Referrers() != nil {
+			for _, r2 := range *sl.Referrers() {
+				if call, ok := r2.(*ssa.Call); ok && call.Call.StaticCallee() == g {
+					return true
+				}
+			}
+		}
+	}
+	return false
+}
+
+// checkMacroNames: the call generator compiles a call whose head is a special
+// form itself, before it consults the macro table. A macro of such a name can
+// be defined and expanded with macexpand, but a call of it never runs the
+// macro. defmac must refuse every name the call generator's switch handles:
+// the rule compares the case labels of that switch with the set of names the
+// guard in GenerateDefmac tests (a map literal it indexes with the macro's name).
+func (c *Ctx) checkMacroNames(rule string) {
+	call := c.funcDecl("Generator.GenerateCallBySymbol")
+	defm := c.funcDecl("Generator.GenerateDefmac")
+	if call == nil || defm == nil {
+		c.undecided(rule, "Generator.GenerateDefmac", "anchor", token.NoPos, "generator functions not found")
+		return
+	}
+	// case labels of the switch on the head's name
+	forms := map[string]bool{}
+	ast.Inspect(call.Body, func(n ast.Node) bool {
+		sw, ok := n.(*ast.SwitchStmt)
+		if !ok || sw.Tag == nil || exprShort(sw.Tag) != "sym.name" {
+			return true
+		}
+		for _, cl := range sw.Body.List {
+			for _, e := range cl.(*ast.CaseClause).List {
+				if bl, ok := e.(*ast.BasicLit); ok && bl.Kind == token.STRING {
+					if v, err := strconv.Unquote(bl.Value); err == nil {
+						forms[v] = true
+					}
+				}
+			}
+		}
+		return false
+	})
+	if len(forms) < 20 {
+		c.undecided(rule, "Generator.GenerateCallBySymbol", "special forms", call.Pos(), fmt.Sprintf("only %d special-form names found in the call generator's switch (24 confirmed by reading)", len(forms)))
+		return
+	}
+	// package-level string sets indexed inside an `if` of GenerateDefmac that returns an error
+	refused := map[string]bool{}
+	guardFound := false
+	ast.Inspect(defm.Body, func(n ast.Node) bool {
+		is, ok := n.(*ast.IfStmt)
+		if !ok || !endsInFailure(is.Body.List) {
+			return true
+		}
+		ast.Inspect(is.Cond, func(m ast.Node) bool {
+			ix, ok := m.(*ast.IndexExpr)
+			if !ok {
+				return true
+			}
+			id, ok := ix.X.(*ast.Ident)
+			if !ok {
+				return true
+			}
+			obj, ok := c.Zygo.TypesInfo.Uses[id].(*types.Var)
+			if !ok || obj.Parent() != c.Zygo.Types.Scope() {
+				return true
+			}
+			// the variable's initialiser
+			for _, f := range c.Zygo.Syntax {
+				for _, d := range f.Decls {
+					gd, ok := d.(*ast.GenDecl)
+					if !ok {
+						continue
+					}
+					for _, sp := range gd.Specs {
+						vs, ok := sp.(*ast.ValueSpec)
+						if !ok {
+							continue
+						}
+						for i, nm := range vs.Names {
+							if c.Zygo.TypesInfo.Defs[nm] != obj || i >= len(vs.Values) {
+								continue
+							}
+							if cl, ok := vs.Values[i].(*ast.CompositeLit); ok {
+								guardFound = true
+								for _, el := range cl.Elts {
+									key := el
+									if kv, ok := el.(*ast.KeyValueExpr); ok {
+										key = kv.Key
+									}
+									if bl, ok := key.(*ast.BasicLit); ok && bl.Kind == token.STRING {
+										if v, err := strconv.Unquote(bl.Value); err == nil {
+											refused[v] = true
+										}
+									}
+								}
+							}
+						}
+					}
+				}
+			}
+			return true
+		})
+		return true
+	})
+	if !guardFound {
+		c.bad(rule, "Generator.GenerateDefmac", "refuses the names of special forms", defm.Pos(),
+			"defmac does not test the macro's name against the set of special forms: (defmac begin [& b] ...) is accepted and shown by macexpand, but (begin 1 2) is still compiled as the special form and never runs the macro")
+		return
+	}
+	var missing []string
+	for f := range forms {
+		if !refused[f] {
+			missing = append(missing, f)
+		}
+	}
+	sort.Strings(missing)
+	c.check(len(missing) == 0, rule, "Generator.GenerateDefmac", "refuses the names of special forms", defm.Pos(),
+		fmt.Sprintf("all %d heads the call generator compiles itself are refused as macro names", len(forms)),
+		"the call generator compiles these heads itself, before it consults the macro table, but defmac accepts them as macro names: "+strings.Join(missing, ", ")+" — such a macro is defined and expanded by macexpand, yet a call of it never runs it")
 }
